@@ -776,7 +776,14 @@ class Saver:
 
         finally:
             if not self.closed:
-                self.close(wait_for=pending)
+                try:
+                    self.close(wait_for=pending)
+                except Exception as e:
+                    # Closing happens on the saver's own thread; record the
+                    # failure so the processor's final check reports it.
+                    if self.got_exception is None:
+                        self.got_exception = e
+                    raise
 
     def save(self, chunk: strax.Chunk, chunk_i: int, executor=None):
         """Save a chunk, returning future to wait on or None."""
